@@ -128,7 +128,7 @@ public:
     int lutimes(const char* p, const struct timeval[2]) override { return r(rec(LUTIMES, p)); }
     int mknod(const char* p, mode_t, dev_t) override { return r(rec(MKNOD, p)); }
     int syncfs() override { return 0; }
-    DIR* opendir(const char* p) override { return rec(OPENDIR, p) ? (DIR*)g_sentinel_dir : nullptr; }
+    photon::fs::DIR* opendir(const char* p) override { return rec(OPENDIR, p) ? (photon::fs::DIR*)g_sentinel_dir : nullptr; }
     ssize_t getxattr(const char* p, const char*, void*, size_t) override { return r(rec(GETXATTR, p)); }
     ssize_t lgetxattr(const char* p, const char*, void*, size_t) override { return r(rec(LGETXATTR, p)); }
     ssize_t listxattr(const char* p, char*, size_t) override { return r(rec(LISTXATTR, p)); }
@@ -455,10 +455,12 @@ static void check_path(Sub* S, const char* in, size_t n, bool exhaustive_src) {
     // per kind of failure: do all slots in which it could be observed fail? (escape: every slot;
     // converse failures: the slots where the converse applies)
     auto all_of_kind = [&](Outcome kind) {
-        uint64_t m = 0;
-        for (int s = 0; s < N_SLOTS; ++s) if ((failmask >> s & 1) && kinds[s] == kind) m |= 1ull << s;
-        uint64_t app = kind == O_ESCAPE ? ((1ull << N_SLOTS) - 1) : conv_applicable;
-        return m == app;
+        if (kind == O_ESCAPE) {
+            uint64_t m = 0;
+            for (int s = 0; s < N_SLOTS; ++s) if ((failmask >> s & 1) && kinds[s] == O_ESCAPE) m |= 1ull << s;
+            return m == (1ull << N_SLOTS) - 1;
+        }
+        return (failmask & conv_applicable) == conv_applicable;     // every slot where the converse applies fails somehow
     };
     std::unordered_set<std::string> done;
     for (int slot = 0; slot < N_SLOTS; ++slot) {
